@@ -267,8 +267,23 @@ def use_symbol(log, thread, r, name):
             buf = io.BytesIO() if kind in BINARY else io.StringIO()
             kw = {'dark': 'darkblue', 'finder_dark': 'red'} if kind in ('png', 'svg', 'ppm') else {}
             qr.save(buf, kind=kind, **kw)
-        list(qr.matrix_iter(scale=2, border=1))
+            # the corner cases of the options every serialiser shares: no quiet zone, scale 1 / 2 (an iterator that hands out the
+            # symbol's own rows instead of copies shows exactly there), and the per-kind variants
+            for opt in (({'border': 0}, {'border': 0, 'scale': 2}, {'border': 1, 'scale': 1}) if len(qr.matrix) <= 45 else ({'border': 0},)):
+                if kind in ('txt', 'ans') and 'scale' in opt:
+                    opt = {k: v for k, v in opt.items() if k != 'scale'}
+                buf = io.BytesIO() if kind in BINARY else io.StringIO()
+                qr.save(buf, kind=kind, **opt)
+            if kind == 'pbm':
+                qr.save(io.BytesIO(), kind='pbm', plain=True, border=0)
+            if kind == 'svg':
+                qr.save(io.BytesIO(), kind='svg', border=0, scale=1.5, draw_transparent=True, light=None)
+        for sc, bo in ((2, 1), (1, 0), (1, None), (3, 0)):
+            for row in qr.matrix_iter(scale=sc, border=bo):
+                if isinstance(row, (bytearray, list)):
+                    row[:] = row[::-1]          # a consumer may do with the rows what it likes: they must be copies
         list(qr.matrix_iter(verbose=True))
+        list(qr.matrix_iter(verbose=True, border=0, scale=1))
         qr.svg_inline(scale=2)
         qr.png_data_uri(scale=1)
         out = io.StringIO()
